@@ -141,3 +141,58 @@ def source_links():
         if bad:
             return {"confirmed": True, "input": {"files": files}, "actual": bad, "expected": "the link serves the entity's own source file", "how": "end-to-end run with incl_src; link followed on disk"}
     return None
+
+
+PAGE_FILES = {
+    "src/kernels.f90": "module kernels_free\n  !! in kernels.f90\n  integer :: kf\nend module kernels_free\n",
+    "src/kernels.f": "      module kernels_fixed\n      integer :: kx\n      end module kernels_fixed\n",
+    "src/sub/kernels.f90": "module kernels_sub\n  !! in sub/kernels.f90\n  integer :: ks\nend module kernels_sub\n",
+    "src/ops.f90": ("module ops\n  !! doc\n  implicit none\n  interface operator(.plus.)\n    module procedure addi\n  end interface\n  interface operator(.plus.x.)\n    module procedure addr\n  end interface\n"
+                    "  interface solve\n    !! generic with interface bodies\n    subroutine solve_real(x)\n      !! real one\n      real :: x\n    end subroutine solve_real\n"
+                    "    subroutine solve_cmplx(x)\n      !! complex one\n      complex :: x\n    end subroutine solve_cmplx\n    subroutine solve_norm(x)\n      !! norm one\n      integer :: x\n    end subroutine solve_norm\n"
+                    "  end interface solve\ncontains\n  function addi(a, b)\n    integer, intent(in) :: a, b\n    integer :: addi\n    addi = a + b\n  end function addi\n"
+                    "  function addr(a, b)\n    real, intent(in) :: a, b\n    real :: addr\n    addr = a + b\n  end function addr\nend module ops\n"),
+}
+
+
+def page_files():
+    """real end-to-end run: entities whose identifiers contain dots (source files, operator interfaces) or share a stem, and the specific procedures of a generic
+    interface given as interface bodies: every page object has its own file, every link leads to it, and no two distinct procedures share an id on a page"""
+    import os, re, collections
+    from bounded import site, realrun
+    with site.site(PAGE_FILES, "src_dir: ./src\noutput_dir: ./doc\ngraph: false\nsearch: true\nincl_src: true\n") as (pd, status):
+        inp = {"files": PAGE_FILES}
+        if not status.startswith("ok"):
+            return {"confirmed": True, "input": inp, "actual": f"run failed: {status}", "expected": "ok", "how": "end-to-end run"}
+        out = os.path.join(pd, "doc")
+        bad, n, npages = site.walk_links(out)
+        sp, _ = site.search_index_links(out)
+        bad = sorted(set(bad + sp))
+        # as many files as page objects
+        proj = realrun.build_project(PAGE_FILES, display=["public", "protected"])
+        want = {"sourcefile": len(proj.files), "module": len(proj.modules) + len(proj.submodules), "interface": sum(1 for p in proj.procedures if p.obj == "interface" or getattr(p, "generic", False))}
+        for d in ("sourcefile", "module"):
+            have = len([f for f in os.listdir(os.path.join(out, d)) if f.endswith(".html")]) if os.path.isdir(os.path.join(out, d)) else 0
+            if have != want[d]:
+                bad.append(f"{d}/: {have} pages written for {want[d]} {d} entities")
+        # ids of procedures are unique on every page
+        for d, _, ff in os.walk(out):
+            for f in ff:
+                if f.endswith(".html"):
+                    ids = re.findall(r'\bid="(proc-[^"]*)"', open(os.path.join(d, f), encoding="utf-8", errors="replace").read())
+                    # the same procedure may be summarised twice on a page (module page: list and detail); distinct procedures must differ
+                    dup = [i for i, k in collections.Counter(ids).items() if k > 2]
+                    if dup:
+                        bad.append(f"{os.path.relpath(os.path.join(d, f), out)}: id {dup[0]!r} occurs {collections.Counter(ids)[dup[0]]} times")
+        page = os.path.join(out, "interface", "solve.html")
+        if os.path.exists(page):
+            ids = set(re.findall(r'\bid="(proc-[^"]*)"', open(page, encoding="utf-8").read()))
+            for nm in ("solve_real", "solve_cmplx", "solve_norm"):
+                if f"proc-{nm}" not in ids:
+                    bad.append(f"interface/solve.html: no id 'proc-{nm}' for the specific procedure {nm}")
+        else:
+            bad.append("interface/solve.html was not written")
+        if bad:
+            return {"confirmed": True, "input": inp, "actual": bad[:6], "expected": "one file per page object, live links, one id per specific procedure",
+                    "how": f"end-to-end run ({n} links on {npages} pages followed), file counts per directory against the project lists, ids of the generic interface page"}
+    return None
